@@ -5,7 +5,12 @@ UNITS = None
 EXPLANATION = (
     "Static rules over the resolved program (clang CFGs + expression trees of /repo's current source). "
     "Decides necessary structural clauses of C09: R09.1 every store through the occurrence-cache pointer of the "
-    "seven fillers is guarded by index<capacity on all paths (forward must-facts)."
+    "seven fillers is guarded by index<capacity on all paths (forward must-facts). "
+    "R09.2 every caller hands the fillers an array with room for nti results plus the GRP_CCH_OFF group stamps. R09.3 no natural loop of "
+    "the expansion, iterator and line-chopping code has a fruitless cycle (a cycle on which nothing an exit test reads is modified) "
+    "unless it burns fuel. R09.4 the time-of-day enumeration arrays hold as many values as the parser admits. R09.5 a division by a "
+    "month length that can be 0 (out-of-table Hijri month) is guarded. R09.6 (thorough) shift amounts of the fillers' masks stay below "
+    "the word width."
 )
 NOT_DECIDED = "use-after-free across stream lifetimes; a numeric bound on the work per call; the behaviour itself"
 TRUSTED = ["clang 14 parser/CFG builder", "echse-facts extractor", "python rule engines in /verif/sa"]
